@@ -235,6 +235,10 @@ def cases(draw):
     for j in junk:
         if j[0] not in ok:
             j[0] = ok[j[0] % len(ok)]
+    var = draw(S.scaffold())
+    if var:
+        var["drop_wrap_no"] = False
+        S.apply_scaffold({"sections": secs}, var)
     return {"spec": {"nl": "\n", "final_nl": True, "sections": secs}, "junk": junk,
             "mnemonic_case": draw(st.sampled_from(["upper", "preserve", "lower"]))}
 
